@@ -80,7 +80,7 @@ def family(p, f):
         for c in p.closure_children.get(x, ()):
             if c not in seen:
                 seen.add(c)
-                out.append(p.fns[c])
+                out.append(p.fns.view(c))
                 work.append(c)
     return out
 
@@ -91,7 +91,7 @@ def each_fn(p):
     for k in sorted(p.raw_fns):
         if p.inline_mode and p.transparent(p.raw_fns[k].root or k):
             continue
-        yield p.fns[k]
+        yield p.fns.view(k)
 
 
 def sites(p, fid, within=None):
@@ -101,7 +101,7 @@ def sites(p, fid, within=None):
         fns = [p.fns[within]]
     elif p.inline_mode:
         # views: a transparent helper's call sites are seen, inlined, in the views of the functions that call it
-        fns = [p.fns[k] for k in p.fns if not p.transparent(p.raw_fns[k].root or k)]
+        fns = [p.fns.view(k) for k in p.fns if not p.transparent(p.raw_fns[k].root or k)]
     else:
         fns = p.fns.values()
     for f in fns:
